@@ -12,6 +12,7 @@ import glob
 import json
 import os
 import signal
+import time
 
 import dns.btreezone
 import dns.exception
@@ -33,7 +34,8 @@ RULE = (
     "writer/reader; an initial zone of 0..8 rdatasets over 6 owner names (with case variants, relative or absolute "
     "spelling, out-of-zone and over-long names) x 8 types (A NS CNAME SOA NSEC RRSIG(A|CNAME|NSEC) TXT DNAME) x 4 value ids "
     "x boundary TTLs {0,1,60,300,3600,2^31-1,2^32-1}; 0..25 operations (add/replace/delete/delete_exact in every argument "
-    "form, update_serial with increments and absolute values around 0, 2^31, 2^32, get/name_exists/changed/iterate, "
+    "form, update_serial with increments and absolute values around 0, 2^31, 2^32, get/name_exists/get_node/changed/iterate, "
+    "empty rdatasets and RRsets as arguments (1 in 40), "
     "mid-history commit/rollback, hook vetoes), deletions aimed at existing content with probability 0.7; every history "
     "is also aborted after every operation index (raise in the body / raising check hook / explicit rollback, rotating); "
     "a malformed stream mutates argument lists (surplus, missing, wrong kind, wrong class, huge TTL, bad type codes, empty "
@@ -47,27 +49,33 @@ TRUSTED_BASE = [
 ASSUMPTIONS = [
     "a zone always has an origin; names given as str (parsed by dns.name.from_text) and types given as text are outside the model",
     "rdatasets handed to the API are built by the public constructors, so IncompatibleTypes / DifferingCovers cannot arise",
-    "add/replace of an *empty* rdataset and delete with an empty rdataset (falsy, deletes the whole name) are compared with "
-    "the model of the code only; the reference model (oracle, theorems' spec) takes no position on them",
+    "an *empty* rdataset is API-legal: add/replace store it (the owner then exists with an empty rdataset of that type), "
+    "delete/delete_exact with one deletes the whole name (it is falsy), an empty RRset handed to add/replace is a ValueError; "
+    "the reference model says the same (reading fixed here, DESIGN §6 style)",
     "versioned-zone readers/pruning/locking (C11, C12) and B-tree node flags / delegation index (C20) are not compared here",
     "copy-on-write is modelled away (zones as persistent values): isolation of the published map is established by the "
     "abort-at-every-index sweep of the tie, not by a theorem",
 ]
 LEVEL = {
     "text": "Lean 4 theorems over an executable model of dns/transaction.py + dns/zone.py (_validate_name, Version, WritableVersion, "
-            "zone.Transaction) + dns/node.py + dns/rdataset.py/set.py + dns/serial.py: every history of add/replace/delete/"
-            "delete_exact/update_serial/get/name_exists/commit/rollback, in every argument form, refines a flat finite-map reference "
-            "(same results, same error families, same committed content); owner names given relative or absolute behave "
-            "identically; leaving through an exception or a rollback after any prefix leaves the published zone untouched; reads "
-            "see the transaction's own writes; ended and read-only transactions refuse use; RFC 1982 serial laws and the 0 -> 1 "
-            "rule. The model is tied to the three zone classes by a differential correspondence check over whole histories with an "
-            "abort injected after every operation index, and by constants (CNAME/neutral/singleton type sets, serial width, MAX_TTL) "
-            "regenerated from the working tree and fed to the theorems.",
+            "zone.Transaction) + dns/node.py + dns/rdataset.py/set.py + dns/serial.py, and a second model instance of the B-tree "
+            "version class (dns/btreezone.py WritableVersion): every history of add/replace/delete/delete_exact (every argument form, "
+            "well-formed or not, empty rdatasets included, with or without a vetoing check hook)/update_serial/get/name_exists/"
+            "get_node/changed/iteration/commit/rollback refines a flat finite-map reference (same results and error families, "
+            "iteration and get_node equal up to order, same committed content) from any well-formed initial zone (sim_flatten); the "
+            "B-tree version class has the same content behaviour whatever its flag bookkeeping does; owner names relative or absolute "
+            "behave identically; leaving through an exception or a rollback after any prefix leaves the published zone untouched; "
+            "reads see the transaction's own writes; ended and read-only transactions refuse use; RFC 1982 serial laws and the "
+            "0 -> 1 rule. The model is tied to the three zone classes by a differential correspondence check over whole histories "
+            "with an abort injected after every operation index, and by constants (CNAME/neutral/singleton type sets, serial width, "
+            "MAX_TTL) regenerated from the working tree and fed to the theorems.",
     "note": "Trusted: Lean kernel + propext/Classical.choice/Quot.sound; the statements in lean/Props/C10.lean; the correspondence "
             "harness and its generators (differential testing bounds the tie); harness/extract_C10.py. Copy-on-write isolation is "
-            "true by construction in the model (persistent values) and is carried by the abort sweep of the tie. The as-shipped "
-            "variants D09/D10 are model parameters: the refinement theorems are stated for the intended variant, the unchanged tree "
-            "is reported through KNOWN_FINDINGS.",
+            "true by construction in the model (persistent values) and is carried by the abort sweep of the tie. The B-tree instance "
+            "is tied to the code through its content only (its flags / delegation index are C20's). One decision point is open in "
+            "the code as it is (get_node on an ended transaction is not refused; KNOWN_FINDINGS): the full theorems are for the "
+            "intended variant, current_code_refines_spec / ended_refuses_partial for the code as it is; the D09/D10 variants are "
+            "legacy (repaired) and survive only as legacy_* counter-examples.",
     "technique": "Lean 4 proof (refinement to a finite map by simulation + invariants, induction over histories) + model-vs-implementation correspondence",
     "design_ref": "DESIGN.md §7 C10",
 }
@@ -222,6 +230,8 @@ def enc_op(op):
         return "get:" + enc_labels([bytes.fromhex(x) for x in op[1]]) + f":{op[2]}:{op[3]}"
     if k == "ex":
         return "ex:" + enc_labels([bytes.fromhex(x) for x in op[1]])
+    if k == "gn":
+        return "gn:" + enc_labels([bytes.fromhex(x) for x in op[1]])
     return k
 
 
@@ -233,9 +243,9 @@ def enc_zone(zone):
 
 
 def line_of(which, c, flags, ops, exc, zone=None):
-    d09 = 1 if flags.get(("d09", c["cls"])) else 0
-    d10 = 1 if flags.get(("d10",)) else 0
-    return (f"c10.{which} {enc_labels(ORIGIN)} {c['rel']} {IN} {d09} {d10} {c['ro']} {'x' if exc else 'c'} "
+    # d09/d10 are legacy variants of the model (repaired in the code): always off; gn as probed
+    gn = 1 if flags.get(("gn",)) else 0
+    return (f"c10.{which} {enc_labels(ORIGIN)} {c['rel']} {IN} 0 0 {gn} {c['ro']} {'x' if exc else 'c'} "
             f"{enc_zone(c['zone'] if zone is None else zone)} " + (";".join(enc_op(o) for o in ops) if ops else "-"))
 
 
@@ -347,6 +357,9 @@ def call_op(txn, hooks, op):
         return "ok:none" if r is None else "ok:" + show_rds(r)
     if k == "ex":
         return "ok:1" if txn.name_exists(nm(op[1])) else "ok:0"
+    if k == "gn":
+        node = txn.get_node(nm(op[1]))
+        return "ok:nonode" if node is None else "ok:node[" + "&".join(sorted(show_rds(r) for r in node.rdatasets)) + "]"
     if k == "ch":
         return "ok:f1" if txn.changed() else "ok:f0"
     if k == "dump":
@@ -423,7 +436,7 @@ class Ref:
             for cls, t, cv, ttl, vals in rs:
                 self.zone[(k, t, cv)] = (ttl, frozenset(vals))
         self.ver = dict(self.zone)
-        self.committed_explicitly = False
+        self.touched = False
 
     @staticmethod
     def canon(labels):
@@ -455,6 +468,7 @@ class Ref:
             if (key[1], key[2]) == (t, c) or (kind == "cname" and ok == "regular") or (kind == "regular" and ok == "cname"):
                 del self.ver[key]
         self.ver[(k, t, c)] = (ttl, frozenset(vals))
+        self.touched = True
 
     def store(self, labels, r, merge, veto):
         cls, t, c, ttl, vals = r
@@ -506,6 +520,8 @@ class Ref:
             exact = k == "dex"
             veto = bool(op[1])
             labels, sel = canonical_delete_args(op[2])
+            if sel[0] == "rds" and not sel[1][4]:
+                sel = ("all",)      # an empty rdataset is falsy: the whole name goes
             if sel[0] == "all":
                 if exact:
                     kk = self.canon(labels)
@@ -520,6 +536,7 @@ class Ref:
                 for key in list(self.ver):
                     if key[0] == kk:
                         del self.ver[key]
+                        self.touched = True
                 return "ok"
             if sel[0] == "type":
                 kk = self.canon(labels)
@@ -531,6 +548,7 @@ class Ref:
                 if veto:
                     raise RefErr("Veto")
                 del self.ver[key]
+                self.touched = True
                 return "ok"
             cls, t, c, ttl, vals = sel[1]
             if cls != IN:
@@ -548,9 +566,10 @@ class Ref:
                 raise RefErr("Veto")
             rest = ovals - frozenset(vals)
             if rest:
-                self.ver[key] = (ottl, rest)
+                self.put(kk, t, c, ottl, rest)
             else:
                 del self.ver[key]
+                self.touched = True
             return "ok"
         if k == "us":
             veto, value, relative, labels = bool(op[1]), op[2], bool(op[3]), [bytes.fromhex(x) for x in op[4]]
@@ -580,9 +599,15 @@ class Ref:
         if k == "ex":
             kk = self.canon([bytes.fromhex(x) for x in op[1]])
             return "ok:1" if self.has(kk) else "ok:0"
+        if k == "gn":
+            kk = self.canon([bytes.fromhex(x) for x in op[1]])
+            rs = [show_rds_abs(IN, key[1], key[2], v[0], v[1]) for key, v in self.ver.items() if key[0] == kk]
+            return "ok:node[" + "&".join(sorted(rs)) + "]" if rs else "ok:nonode"
         if k == "dump":
             return "ok:[" + self.show(self.ver) + "]"
-        return None  # changed(): no opinion
+        if k == "ch":
+            return "ok:f1" if (self.touched and not self.ro) else "ok:f0"
+        return None
 
     def leave(self, exc):
         if not self.ended:
@@ -603,6 +628,8 @@ def canonical_store_args(args):
     """(labels, rds) of a well-formed add/replace argument list"""
     a0 = args[0]
     if a0[0] == "s":
+        if not a0[2][4]:
+            raise RefErr("ValueError")      # RRset.to_rdataset() of an empty RRset
         return [bytes.fromhex(x) for x in a0[1]], a0[2]
     labels = [bytes.fromhex(x) for x in a0[1]]
     if args[1][0] == "d":
@@ -672,6 +699,8 @@ def classify_mismatch(c, ref_before, op, expected, got):
     """signature of an outcome mismatch at `op` (reference state *before* the op is given)"""
     owner = op_owner(op)
     k = op[0]
+    if k == "gn" and expected == "err:AlreadyEnded" and (got.startswith("ok:") or got == "err:KeyError"):
+        return "C10/get_node/ended-transaction-not-refused"
     if owner is not None and non_native(c, owner) and expected in ("ok", "err:Veto"):
         if k in ("del", "dex") and got == "err:KeyError" and expected == "ok":
             # D09 class: the op removes the owner's last rdataset, owner given in the non-native spelling
@@ -704,24 +733,17 @@ _FLAGS = {}
 
 
 def probe_flags():
-    """which variant of the two recorded decision points the working tree implements (DESIGN §6)"""
+    """which variant of the one open decision point the working tree implements: does `Transaction.get_node`
+    answer on an ended transaction (`gn`)?  (D09/D10 are repaired; the model is always driven with them off.)"""
     if _FLAGS:
         return _FLAGS
-    for cls in CLASSES:
-        c = {"cls": cls, "rel": 1, "ro": 0, "zone": [[hexl((b"a",)), [[IN, A, 0, 300, [1]]]], [hexl(()), [[IN, SOA, 0, 300, [5]]]]]}
-        try:
-            z = build_zone(c)
-            t = run_impl(z, c, [["del", 0, [["n", hexl((b"a",) + ORIGIN)], ["i", A]]]], False)
-            _FLAGS[("d09", cls)] = t[:1] == ["err:KeyError"] and "61=" in dump_zone(z).split(";")
-        except Exception:
-            _FLAGS[("d09", cls)] = False
-    c = {"cls": "plain", "rel": 1, "ro": 0, "zone": [[hexl(()), [[IN, SOA, 0, 300, [5]]]]]}
+    c = {"cls": "plain", "rel": 1, "ro": 0, "zone": [[hexl((b"a",)), [[IN, A, 0, 300, [1]]]]]}
     try:
         z = build_zone(c)
-        t = run_impl(z, c, [["us", 0, 1, 1, hexl(ORIGIN)]], False)
-        _FLAGS[("d10",)] = t[:1] == ["err:ValueError"]
+        t = run_impl(z, c, [["rollback"], ["gn", hexl((b"a",))]], False)
+        _FLAGS[("gn",)] = len(t) == 2 and t[1].startswith("ok:")
     except Exception:
-        _FLAGS[("d10",)] = False
+        _FLAGS[("gn",)] = False
     return _FLAGS
 
 
@@ -797,7 +819,7 @@ def eval_hist(ctx: Ctx, c: dict):
                     e = ref.step(op)
                 except RefErr as x:
                     e = "err:" + x.fam
-                if e is not None and (i >= len(trace) or abs_result(c, trace[i]) != e):
+                if e is not None and (i >= len(trace) or abs_result(c, trace[i]) != e) and op[0] != "gn":
                     same = False     # judged by the oracle of the committed run below
                     break
             if same:
@@ -833,7 +855,10 @@ def eval_hist(ctx: Ctx, c: dict):
             e = ref.step(op)
         except RefErr as x:
             e = "err:" + x.fam
-        ref_trace.append("ok" if (e is None or (op[0] == "dump" and e.startswith("ok"))) else e)
+        if op[0] == "dump" and e is not None and e.startswith("ok"):
+            ref_trace.append("ok:[" + native_dump(c, ref.ver) + "]")
+        else:
+            ref_trace.append("ok" if e is None else e)
         g = abs_result(c, trace[i]) if i < len(trace) else "missing"
         ctx.count("op." + op[0] + "." + (g.split(":")[1] if g.startswith("err:") else "ok"))
         if e is None:
@@ -842,6 +867,8 @@ def eval_hist(ctx: Ctx, c: dict):
             sig = classify_mismatch(c, before, op, e, g)
             ctx.fail(sig, f"operation {i} {enc_op(op)} returned {g}, the reference model says {e} (zone class {c['cls']}, relativize={c['rel']})",
                      dict(rep, op_index=i))
+            if sig == "C10/get_node/ended-transaction-not-refused":
+                continue        # a pure read: the state has not diverged
             abandoned = True
             break
     if not abandoned:
@@ -1075,8 +1102,10 @@ def gen_hist(rng, malformed=False):
                 op = ["us", veto, rng.choice([0, 1, 77, 2 ** 31, 2 ** 32 - 1, 2 ** 32, 2 ** 32 + 5]), 0, o]
         elif x < 86:
             op = ["get", owner, t, cv]
-        elif x < 90:
+        elif x < 88:
             op = ["ex", owner]
+        elif x < 90:
+            op = ["gn", owner]
         elif x < 93:
             op = ["ch"]
         elif x < 97:
@@ -1085,6 +1114,8 @@ def gen_hist(rng, malformed=False):
             op = ["commit"] if rng.chance(1, 2) else ["rollback"]
         else:
             op = ["get", odd_name(rng), t, cv]
+        if op[0] in ("add", "rep", "del", "dex") and rng.chance(1, 40):
+            op = empty_variant(op)
         if malformed and rng.chance(1, 3):
             op = mutate_op(rng, op)
         ops.append(op)
@@ -1096,6 +1127,19 @@ def gen_hist(rng, malformed=False):
     if malformed:
         c["malformed"] = 1
     return c
+
+
+def empty_variant(op):
+    """the same call with an empty rdataset / RRset (API-legal: stores an empty rdataset, resp. deletes the name)"""
+    args = []
+    for a in op[2]:
+        if a[0] == "d":
+            args.append(["d", a[1][:4] + [[]]])
+        elif a[0] == "s":
+            args.append(["s", a[1], a[2][:4] + [[]]])
+        else:
+            args.append(a)
+    return [op[0], op[1], args]
 
 
 def mutate_op(rng, op):
@@ -1142,11 +1186,12 @@ def hist_key(c):
 
 def generate(ctx: Ctx, scale: int, rng):
     n = lambda q: max(1, q * scale)
+    t_start = time.time()       # the clock of the generated stream only (the Lean build may have waited for the lock)
     for i in range(n(3000)):
         c = gen_hist(rng, malformed=(i % 7 == 6))
         ctx.case(("hist", hist_key(c)), nontrivial=len(c["ops"]) > 0, sample=c if len(c["ops"]) <= 6 else None)
         eval_case(ctx, c)
-        if ctx.tier == "quick" and ctx.elapsed() > 45:
+        if ctx.tier == "quick" and time.time() - t_start > 32:
             ctx.notes.append(f"history budget cut at {i + 1} by the quick-tier clock")
             break
     pool = [0, 1, 2, 5, 2 ** 31 - 2, 2 ** 31 - 1, 2 ** 31, 2 ** 31 + 1, 2 ** 32 - 2, 2 ** 32 - 1, 2 ** 32, 2 ** 32 + 1]
